@@ -2,6 +2,7 @@
 import hashlib
 import json
 import os
+import re
 import sys
 import time
 
@@ -86,7 +87,10 @@ class PropertyRun:
                 self.assumptions.append(i)
 
     def was_discharged_at_baseline(self, oid):
-        return self.baseline.get(oid) == 'discharged'
+        # path ordinals (#n) change with the code: a clause counts as discharged at baseline when every instance of it was
+        stem = re.sub(r'#\d+$', '', oid)
+        same = [v for k, v in self.baseline.items() if re.sub(r'#\d+$', '', k) == stem]
+        return bool(same) and all(v == 'discharged' for v in same)
 
     # ------------------------------------------------------------------ finish
     def write_replay(self, v):
